@@ -46,6 +46,12 @@ FOCUS = {
                     "option combinations that are rarely used together, error branches, the interplay of two public calls on one object, module-level state, and numerically special but legal "
                     "inputs (NaN, inf, empty or one-element arrays, float32 or integer arrays, negative zero, unsorted or duplicated axis values). At least one of your two breaking changes should "
                     "need a HISTORY (two or more calls) or an INTERPLAY of two arguments to manifest.\n",
+    "cooperating-sites": "\nFOCUS OF THIS ROUND: changes that are only wrong in COMBINATION. Prefer (a) two edits at different sites (two functions, two modules, a producer and a consumer, a writer "
+                         "and a reader, a default and the code that interprets it) that each preserve behaviour on their own but not together; (b) a change that is correct for the data shapes, containers and "
+                         "dtypes ordinary use hands over (float64 ndarrays, ascending axes, equal lengths) and wrong for another legal one (lists, tuples, integer or float32 arrays, 0-d arrays, numpy scalars "
+                         "vs Python floats, descending or duplicated axis values, unequal lengths where they are allowed, read-only arrays, views); (c) a change on an exception or early-return path that leaves "
+                         "an object half updated and only shows in what the NEXT call does; (d) a change whose effect depends on the ORDER of otherwise independent calls, files, azimuths or windows. "
+                         "At least one of your two breaking changes must be of kind (a) or (c).\n",
 }
 
 
